@@ -1,7 +1,10 @@
 //! verif harness: drives the real ruma API with cases emitted by TLC (spec -> impl replay) and
 //! records executions of the real API for validation by TLC (impl -> spec).
 mod c04;
+mod c08;
+mod pdu;
 mod c13;
+mod c20;
 mod util;
 
 fn main() {
@@ -15,6 +18,8 @@ fn main() {
     match (args[0].as_str(), args[1].to_ascii_lowercase().as_str()) {
         ("replay", "c04") => c04::replay(rest),
         ("record", "c04") => c04::record(rest),
+        ("replay", "c08") => c08::replay(rest),
+        ("replay", "c20") => c20::replay(rest),
         ("replay", "c13") => c13::replay(rest),
         ("record", "c13") => c13::record(rest),
         (m, id) => {
